@@ -91,7 +91,24 @@ def gen(rng, tier, quarantine=()):
         # drop a random subset so that the delimiters come from partial capture sets too
         keep = [s for s in sels if rng.random() < 0.7]
         sels = keep or sels
-    ops = [{"op": "mk", "id": "p0", "sels": sels, "inv": "C06.meta"}, {"op": "enter", "id": "p0"}]
+    ops = []
+    if "no-earlier-probes" not in quarantine and rng.random() < 0.2:
+        # an earlier probe asked for some of these events and is over; another probe, asking for
+        # something else, is active when the probe under judgement is opened
+        import copy
+
+        pre = copy.deepcopy(rng.sample(sels, rng.randint(1, len(sels))))
+        mid = [meta_sel(qual, rng.choice(["#enter"] + names[:2]))]
+        ops += [{"op": "mk", "id": "pre", "sels": pre, "inv": "C06.meta"}, {"op": "enter", "id": "pre"}]
+        if rng.random() < 0.5:
+            op = call_shape(rng, qual, fnir, "k1")
+            op["tape"] = gen_tape(rng, rng.randint(0, 12), odd=0.3)
+            op["faults"] = {}
+            if not (short in GEN_FNS or is_gen):
+                ops.append(op)
+        ops += [{"op": "exit", "id": "pre"},
+                {"op": "mk", "id": "mid", "sels": mid, "inv": "C06.meta"}, {"op": "enter", "id": "mid"}]
+    ops += [{"op": "mk", "id": "p0", "sels": sels, "inv": "C06.meta"}, {"op": "enter", "id": "p0"}]
     if "no-failing-subscriber" not in quarantine and rng.random() < 0.2 and not (short in GEN_FNS or is_gen):
         # a subscriber of the probe fails on its k-th event: the activation it strikes ends by
         # raising, and is still closed properly
@@ -128,6 +145,8 @@ def gen(rng, tier, quarantine=()):
     if any(o.get("id") == "w0" for o in ops):
         ops.append({"op": "exit", "id": "w0"})
     ops.append({"op": "exit", "id": "p0"})
+    if any(o.get("id") == "mid" for o in ops):
+        ops.append({"op": "exit", "id": "mid"})
     sc = {"prog": "forms", "ops": ops, "exact_failures": True}
     if generated:
         sc.update({"prog": "generated", "program": generated, "prog_name": f"gen{rng.randrange(1 << 40):x}"})
